@@ -50,6 +50,10 @@ def classify_death(rc, stderr_text, stdout_tail):
             return 'death-assert', line[len('DEATH assert '):].strip()[:300]
         if line.startswith('DEATH terminate'):
             return 'death-terminate', line.strip()
+        if line.startswith('DEATH no-progress'):
+            return 'no-progress', 'the operation consumed its CPU budget without finishing (spin on a dead stream?)'
+    if rc == 74:
+        return 'no-progress', 'the operation consumed its CPU budget without finishing'
     if rc == 78:
         return 'death-assert', ''
     if rc == 75:
